@@ -59,6 +59,12 @@ class BehavioralRTLIRToVVisitorL2( BehavioralRTLIRToVVisitorL1 ):
       bir.Gt : '>', bir.GtE : '>='
     }
 
+  def count_stmts( s, stmts ):
+    """Return the number of Verilog statements emitted for `stmts`: a chained
+    assignment `a = b = x` is emitted as one statement per target."""
+    return sum( len( stmt.targets ) if isinstance( stmt, bir.Assign ) else 1
+                for stmt in stmts )
+
   def visit_expr_wrap( s, node ):
     """Return expressions selectively wrapped with brackets."""
     if isinstance( node,
@@ -111,12 +117,12 @@ class BehavioralRTLIRToVVisitorL2( BehavioralRTLIRToVVisitorL1 ):
 
       # Else indent orelse-body
       else:
-        else_begin = 'else' + ( ' begin' if len( node.orelse ) > 1 else '' )
+        else_begin = 'else' + ( ' begin' if s.count_stmts( node.orelse ) > 1 else '' )
         make_indent( orelse, 1 )
 
       src.extend( [ else_begin ] )
       src.extend( orelse )
-      if len( node.orelse ) > 1:
+      if s.count_stmts( node.orelse ) > 1:
         src.extend( [ 'end' ] )
 
     return src
@@ -136,7 +142,7 @@ class BehavioralRTLIRToVVisitorL2( BehavioralRTLIRToVVisitorL1 ):
     start    = s.visit( node.start )
     end      = s.visit( node.end )
 
-    begin    = ' begin' if len( node.body ) > 1 else ''
+    begin    = ' begin' if s.count_stmts( node.body ) > 1 else ''
 
     cmp_op   = '>' if node.step._value < 0 else '<'
     inc_op   = '-' if node.step._value < 0 else '+'
@@ -159,7 +165,7 @@ class BehavioralRTLIRToVVisitorL2( BehavioralRTLIRToVVisitorL1 ):
     src.extend( [ for_begin ] )
     src.extend( body )
 
-    if len( node.body ) > 1:
+    if s.count_stmts( node.body ) > 1:
       src.extend( [ 'end' ] )
 
     return src
